@@ -116,10 +116,13 @@ add("C19", "other",
     "constructed-oracle testing of the Go report + byte-level correspondence with the Coq VM model")
 
 add("C17", "other",
-    "Partial. Proved in Coq (PropC17.v): aton(toa(n)) = n for every integer (decimal text round trip, sign and range), toa "
-    "renders exactly what write prints, aton of a non-string is a type error; the generator built-ins are evaluated by Sem over "
-    "trees regenerated from builtin/builtin.go on every run (an edit there re-checks or breaks these). Open: general "
-    "fromto/elems/indices specifications and the float text round trip. Decided each run on the real code: toa vs the bytes "
+    "Partial. Proved in Coq (PropC17.v, GenProofs.v, ForProofs.v): aton(toa(n)) = n for every integer (decimal text round trip, sign and range), toa "
+    "renders exactly what write prints, aton of a non-string is a type error; about the trees regenerated from builtin/builtin.go "
+    "on every run and bound by the session semantics (an edit there re-checks or breaks these): fromto(a,b) hands out a..b-1 and "
+    "nothing when a>=b, indices(x) 0..#x-1, elems(x) x[0]..x[#x-1] for every int64 a,b and every array/string x, touching only the "
+    "generator's own frame; a for loop over each runs its body once per value in order; elems of a non-sequence is a type error; "
+    "k successive read() calls return the first k input lines and keep the rest. All about the definitional semantics Sem; the "
+    "compiled code is tied to Sem by correspondence. Open: the float text round trip (tested). Decided each run on the real code: toa vs the bytes "
     "write prints and aton(toa(x)) == x over int boundary classes and floats given by exact decimal text; generator built-ins "
     "against computed expectations incl. the ends of the int range; wrong-argument calls; read() histories through the real "
     "binary with piped input (lines up to 20000 bytes, with/without final newline).", COMMON_NOTE,
